@@ -2078,6 +2078,10 @@ Vsetname(int32       vkey, /* IN: vgroup key */
 
     name_len = strlen(vgname); /* shortcut of length of the given name */
 
+    /* the vgroup record stores the length in 16 bits (vpackvg) */
+    if (name_len > UINT16_MAX)
+        HGOTO_ERROR(DFE_ARGS, FAIL);
+
     /* if name exists, release it */
     free(vg->vgname);
 
@@ -2145,6 +2149,10 @@ Vsetclass(int32       vkey, /* IN: vgroup key */
      */
 
     classname_len = strlen(vgclass); /* length of the given class name */
+
+    /* the vgroup record stores the length in 16 bits (vpackvg) */
+    if (classname_len > UINT16_MAX)
+        HGOTO_ERROR(DFE_ARGS, FAIL);
 
     /* if name exists, release it */
     free(vg->vgclass);
